@@ -244,7 +244,7 @@ def g9_rule(F, rep, rule="C19-G9"):
                 r = self.deref_arg(self.operand(t["args"][0]))
                 if isinstance(r, dict) and r.get("__adt") == "core::result::Result":
                     if r["__var"] == "Ok":
-                        return {"__adt": "core::ops::control_flow::ControlFlow", "__var": "Continue", 0: r.get(0), "0": r.get(0)}
+                        return {"__adt": "core::ops::control_flow::ControlFlow", "__var": "Continue", 0: r.get(0, r.get("0")), "0": r.get(0, r.get("0"))}
                     return {"__adt": "core::ops::control_flow::ControlFlow", "__var": "Break", 0: r, "0": r}
                 raise Undecidable("? on %r" % (r,))
             if "FromResidual" in c and c.endswith("::from_residual"):
